@@ -167,6 +167,52 @@ fn sig_from_frames(frames: &[(String, String)]) -> Option<String> {
     None
 }
 
+/// Runs a child with a wall-clock watchdog. None = killed by the watchdog (harness error, never
+/// a verdict: DESIGN 2.2 "Run bounds").
+fn output_with_timeout(mut cmd: Command, limit: Duration) -> Option<std::process::Output> {
+    use std::io::Read;
+    use std::os::unix::process::CommandExt;
+    use std::process::Stdio;
+    // own process group: `cargo miri run` has the interpreter as a grandchild
+    cmd.process_group(0);
+    cmd.stdin(Stdio::null()).stdout(Stdio::piped()).stderr(Stdio::piped());
+    let mut child = match cmd.spawn() {
+        Ok(c) => c,
+        Err(e) => harness_error(&format!("cannot spawn {cmd:?}: {e}")),
+    };
+    let mut so = child.stdout.take().unwrap();
+    let mut se = child.stderr.take().unwrap();
+    let t1 = std::thread::spawn(move || {
+        let mut b = vec![];
+        let _ = so.read_to_end(&mut b);
+        b
+    });
+    let t2 = std::thread::spawn(move || {
+        let mut b = vec![];
+        let _ = se.read_to_end(&mut b);
+        b
+    });
+    let t0 = Instant::now();
+    let status = loop {
+        match child.try_wait() {
+            Ok(Some(st)) => break Some(st),
+            Ok(None) => {
+                if t0.elapsed() > limit {
+                    let _ = Command::new("kill").args(["-KILL", "--", &format!("-{}", child.id())]).status();
+                    let _ = child.kill();
+                    let _ = child.wait();
+                    break None;
+                }
+                std::thread::sleep(Duration::from_millis(20));
+            }
+            Err(_) => break None,
+        }
+    };
+    let stdout = t1.join().unwrap_or_default();
+    let stderr = t2.join().unwrap_or_default();
+    status.map(|status| std::process::Output { status, stdout, stderr })
+}
+
 // ---------------------------------------------------------------------------------------------
 // running one shuttle chunk
 
@@ -195,9 +241,17 @@ fn run_shuttle(scenario: &str, sched: &str, seed: u64, iters: u64, scratch: &Pat
         }
         cmd.env("ASAN_OPTIONS", o);
     }
-    let out = match cmd.output() {
-        Ok(o) => o,
-        Err(e) => harness_error(&format!("cannot run {}: {e}", shuttle_bin().display())),
+    let Some(out) = output_with_timeout(cmd, Duration::from_secs(300)) else {
+        let mut res = Outcome::default();
+        res.failures.push(Failure {
+            oracle: "harness.watchdog".into(),
+            sig: scenario.into(),
+            detail: format!("shuttle chunk {scenario} {sched} seed {seed} exceeded 300 s and was killed"),
+            harness: true,
+            replay: json!({"engine": "shuttle", "scenario": scenario, "scheduler": sched, "chunk_seed": seed, "iteration": 0, "asan": asan}),
+            ..Default::default()
+        });
+        return res;
     };
     let stdout = String::from_utf8_lossy(&out.stdout).to_string();
     let stderr = String::from_utf8_lossy(&out.stderr).to_string();
@@ -326,7 +380,9 @@ fn classify_panic(msg: &str, scenario: &str, property: &str) -> Failure {
     if let Some(pos) = msg.find("ORACLE|") {
         let f: Vec<&str> = msg[pos..].splitn(4, '|').collect();
         if f.len() == 4 {
-            return Failure { oracle: f[1].into(), sig: f[2].into(), detail: f[3].chars().take(500).collect(), ..Default::default() };
+            let sig = if f[2] == "?" { family(scenario) } else { f[2].to_string() };
+            let oracle = if f[1] == "c17.no_progress" { format!("{p}.no_progress") } else { f[1].to_string() };
+            return Failure { oracle, sig, detail: f[3].chars().take(500).collect(), ..Default::default() };
         }
     }
     if msg.contains("deadlock") {
@@ -362,17 +418,24 @@ fn miri_flags(miri_seed: u64, rate: &str, aliasing: bool) -> String {
 fn run_miri(property: &str, krate: &str, scenarios: &[String], reps: u32, miri_seed: u64, rate: &str, aliasing: bool) -> Outcome {
     let t0 = Instant::now();
     let flags = miri_flags(miri_seed, rate, aliasing);
-    let out = Command::new("cargo")
-        .current_dir(DIR)
+    let mut cmd = Command::new("cargo");
+    cmd.current_dir(DIR)
         .args(["+nightly", "miri", "run", "--offline", "-q", "-p", krate, "--", "run", "--scenarios", &scenarios.join(","), "--reps", &reps.to_string()])
         .env("MIRIFLAGS", &flags)
         .env("CARGO_NET_OFFLINE", "true")
         .env("CARGO_TARGET_DIR", TARGET)
-        .env("RUST_BACKTRACE", "0")
-        .output();
-    let out = match out {
-        Ok(o) => o,
-        Err(e) => harness_error(&format!("cannot run cargo miri: {e}")),
+        .env("RUST_BACKTRACE", "0");
+    let Some(out) = output_with_timeout(cmd, Duration::from_secs(420)) else {
+        let mut res = Outcome::default();
+        res.failures.push(Failure {
+            oracle: "harness.watchdog".into(),
+            sig: krate.into(),
+            detail: format!("Miri process (seed {miri_seed}, rate {rate}) exceeded 420 s and was killed"),
+            harness: true,
+            replay: json!({"engine": "miri", "crate": krate, "scenarios": scenarios, "reps": reps, "miri_seed": miri_seed, "preemption_rate": rate, "aliasing_model": aliasing, "miriflags": flags}),
+            ..Default::default()
+        });
+        return res;
     };
     let stdout = String::from_utf8_lossy(&out.stdout).to_string();
     let stderr = String::from_utf8_lossy(&out.stderr).to_string();
@@ -759,7 +822,7 @@ fn main() {
     let t0 = Instant::now();
     let scratch = PathBuf::from(format!("{TARGET}/scratch-{}-{}", a.property, std::process::id()));
     let _ = std::fs::create_dir_all(&scratch);
-    let budget = a.budget(150);
+    let budget = a.budget(130);
     let mut totals = Totals {
         evaluations: 0,
         per_scenario: BTreeMap::new(),
